@@ -55,7 +55,7 @@ func TestC07(t *testing.T) {
 		"standard I/O (MMap crash images are the known finding recorded under C03)",
 		"evaluations counts opened images (all levels)")
 	defer finishProperty(st)
-	rapid.Check(t, func(t *rapid.T) { c07Run(t, st) })
+	checkCases(t, st, func(t *rapid.T) { c07Run(t, st) })
 }
 
 func c07Run(t *rapid.T, st *kvh.Stats) {
